@@ -406,6 +406,20 @@ func IOPoint() {
 	}
 }
 
+// IOFaultHook, when set, is consulted before every MUTATING local-storage file operation (create,
+// open for writing, temp file, rename, remove) with the operation and the file name; a non-nil
+// result is returned by the operation instead of performing it. Independent of the scheduler: used
+// to make every file-system mutation of OpenGoGitRepo a crash point / a fail-stop point (C06).
+var IOFaultHook func(op, name string) error
+
+// IOFault is called by the local-storage file operations (shim/addfiles).
+func IOFault(op, name string) error {
+	if h := IOFaultHook; h != nil {
+		return h(op, name)
+	}
+	return nil
+}
+
 // AtomicPoint is the scheduling point of an atomic operation (always enabled).
 func AtomicPoint() {
 	if t := current(); t != nil {
